@@ -362,13 +362,13 @@ func TempDir(t testing.TB) string {
 
 // SpinWatchdog must be started OUTSIDE any synctest bubble. The driver bumps
 // progress as it goes; when it has not moved for 15 s of wall time the
-// watchdog decides whether the process is spinning inside the code under test
-// (a goroutine whose stack contains frame, not parked in select/sleep/chan
-// receive, while the process burns > 0.8 s of CPU per second, in three
-// consecutive samples). That is a violation (a busy loop keeps a bubble from
-// ever becoming idle, so virtual time stops and nothing inside can notice);
-// anything else is inconclusive. Either way the process exits: a stuck bubble
-// cannot be torn down. The returned function stops the watchdog.
+// watchdog decides whether the process is spinning inside the code under test: the driver has made no
+// progress for 15 s, and in three consecutive samples one second apart a goroutine whose stack contains frame
+// is neither parked in select, nor in a channel receive, nor asleep (it is runnable, running, in a system
+// call, or queueing for a lock). That is a violation (a busy loop keeps a bubble from ever becoming idle, so
+// virtual time stops and nothing inside can notice); anything else is inconclusive. CPU time is not part of
+// the criterion: a loop that logs on every turn spends whole seconds in write(2) on a busy machine. Either way
+// the process exits: a stuck bubble cannot be torn down. The returned function stops the watchdog.
 func (r *Run) SpinWatchdog(progress *atomic.Int64, frame, key, msg string) (stop func()) {
 	done := make(chan struct{})
 	go func() {
@@ -402,12 +402,21 @@ func (r *Run) SpinWatchdog(progress *atomic.Int64, frame, key, msg string) (stop
 				dump = string(buf)
 				inLoop := false
 				for _, g := range strings.Split(dump, "\n\n") {
-					if strings.Contains(g, frame) && !strings.Contains(g, "[select") && !strings.Contains(g, "[chan receive") && !strings.Contains(g, "[sleep") && !strings.Contains(g, "[sync.") {
+					if strings.Contains(g, frame) && !strings.Contains(g, "[select") && !strings.Contains(g, "[chan receive") && !strings.Contains(g, "[sleep") {
 						inLoop = true
 					}
 				}
-				if c1-c0 > 800*time.Millisecond && inLoop {
+				if _ = c1 - c0; inLoop { // (CPU time is reported, not required: a loop that logs every turn can sit in write(2) for a whole second)
 					spinning++
+				}
+				if os.Getenv("VERIF_WATCHDOG_DEBUG") != "" {
+					hdr := ""
+					for _, g := range strings.Split(dump, "\n\n") {
+						if strings.Contains(g, frame) {
+							hdr += strings.SplitN(g, "\n", 2)[0] + " | "
+						}
+					}
+					fmt.Fprintf(os.Stderr, "watchdog sample %d: cpu=%v inLoop=%t dump=%d bytes goroutines-with-frame: %s\n", s, c1-c0, inLoop, len(dump), hdr)
 				}
 			}
 			if progress.Load() != last {
@@ -418,7 +427,7 @@ func (r *Run) SpinWatchdog(progress *atomic.Int64, frame, key, msg string) (stop
 				if len(dump) > 8000 {
 					dump = dump[:8000]
 				}
-				r.Violation(key, -1, msg+" (3 samples: >0.8 s CPU per second with the goroutine running in "+frame+")", map[string]any{"stacks": dump})
+				r.Violation(key, -1, msg+" (no progress for 15 s, then 3 samples one second apart: the goroutine never parked, in "+frame+")", map[string]any{"stacks": dump})
 			} else {
 				r.Inconclusive("the driver made no progress for 15 s but nothing is visibly spinning in " + frame)
 			}
